@@ -127,6 +127,7 @@ def check(ctx):
     check_recorded_path_first(ctx)
     check_outputs_created_afresh(ctx, pa)
     check_stale_output_removed(ctx)
+    check_directories_only_by_mkdtemp(ctx)
     check_finalisers_release(ctx)
     # settings this property depends on are handed down every call
     # chain, never left to a callee's default (sa/rules/forwarding.py)
@@ -1123,3 +1124,84 @@ def check_stale_output_removed(ctx, rule='R-FRESH/stale-output-removed'):
     if n < 1:
         raise AnalysisError('no function that clears a stale output file '
                             'was found (expected _validate_h5ad)')
+
+
+def _dir_creations(tree):
+    """calls that create a directory at a path of the caller's choosing"""
+    out = []
+    for c in ast.walk(tree):
+        if isinstance(c, ast.Call):
+            f = c.func
+            nm = f.attr if isinstance(f, ast.Attribute) else getattr(
+                f, 'id', None)
+            if nm in ('mkdir', 'makedirs', 'mkdirs'):
+                out.append(c)
+    return out
+
+
+def check_directories_only_by_mkdtemp(
+        ctx, rule='R-FRESH/directories-only-by-mkdtemp'):
+    """every scratch directory the package works in is acquired with
+    `tempfile.mkdtemp` -- a fresh, unique name with an owner that the
+    pairing rules follow to its release.  A `mkdir` / `makedirs` creates a
+    directory nobody owns.  Two places where that breaks the property:
+    (a) in code a worker process runs: a worker that outlives the
+    clean-up of a failed run re-creates the scratch directory it was told
+    to write into, and the run leaves files behind; (b) anywhere, for a
+    path that derives from a scratch parameter (`tmp_dir`, `buffer_dir`,
+    `results_output_path`, ...).  Other directory creations (an output
+    directory asked for by the user) are listed, not judged."""
+    from ..core.slicing import backward_slice
+    db = ctx.db
+    # the matcher recognises the construct (control)
+    probe = ast.parse("def f(p):\n    p.parent.mkdir(parents=True, "
+                      "exist_ok=True)\n    os.makedirs(p)\n")
+    if len(_dir_creations(probe)) != 2:
+        raise AnalysisError('directory-creation matcher failed its control')
+    targets = [s_.target.qual for s_ in W.find_spawn_sites(db)
+               if s_.target is not None and in_pipeline(s_.fi.module)]
+    if len(targets) < 5:
+        raise AnalysisError(f'only {len(targets)} worker targets found')
+    in_worker = set(ctx.cg.reachable(targets))
+    scratch_names = ('tmp', 'scratch', 'buffer', 'results_output_path')
+    n_fn = 0
+    n_other = 0
+    k = 0
+    for fi in db.iter_functions():
+        if fi.module.short.startswith(('gpu_utils', 'test_utils')):
+            continue
+        n_fn += 1
+        for c in _dir_creations(fi.node):
+            f = c.func
+            path = f.value if isinstance(f, ast.Attribute) and not (
+                isinstance(f.value, ast.Name) and f.value.id == 'os') \
+                else (c.args[0] if c.args else None)
+            why = None
+            if fi.qual in in_worker:
+                why = 'in code that worker processes run'
+            elif path is not None:
+                try:
+                    sl = backward_slice(fi, path)
+                    hit = sorted(p_ for p_ in sl.params if any(
+                        s_ in p_ for s_ in scratch_names))
+                except Exception:
+                    hit = []
+                if hit:
+                    why = f'at a path derived from the scratch ' \
+                          f'parameter(s) {hit}'
+            if why is None:
+                n_other += 1
+                continue
+            ctx.touch(fi)
+            ctx.fail(rule, f'{fi.qual}:mkdir#{k}', fi.loc(c),
+                     f'`{unparse(c)[:60]}` in {fi.name} creates a '
+                     f'directory {why}, outside the mkdtemp / release '
+                     'discipline: nothing owns it, and it is (re)created '
+                     'even after the run that was to clean it up has '
+                     'given up')
+            k += 1
+    ctx.ok(rule, 'package', 'package',
+           f'{n_fn} functions scanned ({len(in_worker)} run by workers): '
+           f'no directory is created in worker code or under a scratch '
+           f'parameter other than by mkdtemp ({n_other} other creation(s) '
+           'not judged)', nontrivial=True)
